@@ -160,6 +160,11 @@ def check_C09(fx, eng, rep, tier):
     res = lock_sinks(fx, eng, ['OptimisticLock'])
     m, sink = res['OptimisticLock']
     n = sink.into(rep, ['C09.', 'C01.ADM', 'C01.REL', 'C10.UPG', 'C10.DOWN', 'C01.STORE', 'C01.WHO'])
+    # a failed TryLock* / a version read must not write the word at all
+    for it in sink.items:
+        if it['rule'].startswith(('C01.ROWS', 'C03.SAMPLE')) and ('TryLock' in it['key'] or 'GetVersion' in it['key'] or 'VerifyVersion' in it['key']):
+            n += 1
+            getattr(rep, {'ok': 'ok', 'violated': 'violation', 'unsupported': 'unsupported'}[it['status']])(it['rule'], it['key'], it['loc'], it['detail'])
     for f in m.fns.values():
         if f.get('_feasible_paths') is not None:
             rep.saw_fn(f)
@@ -329,7 +334,7 @@ def check_C17(fx, eng, rep, tier):
                        'stalled between reading the global epoch and publishing its pin (documented observation O2).')
     rep.rule_text = 'C17.OWN / C17.CONST / C17.FREE / C17.PUB / C17.SHARED + C20.UAF + C04.SCAN / C16.SORT (shape of the list)'
     rep.trusted = ['clang 14 AST/CFG', 'clang++ for the witness', 'single coordinator']
-    n = _take(rep, sink, ['C17.', 'C20.UAF', 'C04.SCAN', 'C16.SORT', 'C04.PUBLISH', 'C16.STEP'])
+    n = _take(rep, sink, ['C17.', 'C20.UAF', 'C04.SCAN', 'C16.SORT', 'C04.PUBLISH', 'C16.STEP', 'C04.BIND', 'C04.GUARD', 'C04.ENTER'])
     from witness import run_witness
     w = run_witness(fx.flags, ['dbgroup/thread/epoch_manager.hpp'],
                     [('second is const vector&', 'std::is_same_v<decltype(std::declval<dbgroup::thread::EpochManager &>().GetProtectedEpochs().second), const std::vector<size_t> &>', '')])
@@ -349,7 +354,7 @@ def check_C20(fx, eng, rep, tier):
     rep.rule_text = 'C20.ALLOC / C20.WALK / C20.UAF + C17.FREE + C04.SCAN / C16.SORT / C16.MIN'
     rep.trusted = ['clang 14 AST/CFG', 'std::sort/unique/erase semantics']
     rep.assumptions = ['the retention bound is not decided']
-    n = _take(rep, sink, ['C20.', 'C17.FREE', 'C04.SCAN', 'C16.SORT', 'C16.MIN'])
+    n = _take(rep, sink, ['C20.', 'C17.FREE', 'C04.SCAN', 'C16.SORT', 'C16.MIN', 'C04.GUARD', 'C04.ENTER'])
     _thread_fns(rep, fx, EPOCH_TUS)
     rep.floor('C20 obligations', n, 15)
 
